@@ -289,7 +289,7 @@ fn slicing_body(mode: u8) {
         }
         SCRIPT_POS = 0;
         // the maximum-speed loop re-enters the frame loop after every frame: with 3 instructions the query needed > 20 GB, 2 are kept
-        SCRIPT_LIMIT = if mode == 2 { 2 } else { 4 };
+        SCRIPT_LIMIT = if mode == 2 { 3 } else { 4 };
     }
     let limit = Duration::from_millis(kani::any::<u16>() as u64);
     let mut frames_seen = 0usize;
@@ -409,7 +409,7 @@ fn c16_slicing_frame_by_frame() {
 // @stub Z80::emulate -> scripted step (length and PC from the symbolic program); ZXScreen::process_clocks -> no-op
 // @replay solver-only
 #[kani::proof]
-#[kani::unwind(12)]
+#[kani::unwind(6)]
 #[kani::stub(rustzx_z80::Z80::emulate, scripted_cpu_step)]
 #[kani::stub(crate::zx::video::screen::ZXScreen::process_clocks, ch::noop_screen_clocks)]
 fn c16_slicing_max_speed_mode() {
